@@ -1158,7 +1158,10 @@ class HTMLDocument:
     def _gen_html_tag_tree(
         self, lib_prefix: Optional[str], include_version: bool
     ) -> Tag:
-        content: TagList = self._content
+        # Tagify first, so that the decision below is made on what will be rendered (a
+        # tagifiable child may expand to nothing, or to the <html> or <body> tag). This
+        # is also a copy, so the user's objects are not modified.
+        content: TagList = self._content.tagify()
         html: Tag
         body: Tag
 
@@ -1167,8 +1170,7 @@ class HTMLDocument:
             and isinstance(content[0], Tag)
             and cast(Tag, content[0]).name == "html"
         ):
-            # Work on a (tagified) copy so that the user's <html> tag is not modified
-            html = cast(Tag, content[0]).tagify()
+            html = cast(Tag, content[0])
             html.attrs.update(**self._html_attr_args)
             html = HTMLDocument._hoist_head_content(html, lib_prefix, include_version)
             return html
@@ -1181,8 +1183,6 @@ class HTMLDocument:
             body = cast(Tag, content[0])
         else:
             body = Tag("body", content)
-
-        body = body.tagify()
 
         html = Tag("html", Tag("head"), body, _add_ws=True, **self._html_attr_args)
         html = HTMLDocument._hoist_head_content(html, lib_prefix, include_version)
